@@ -49,7 +49,7 @@ Fixpoint chain (ap : Z -> list Z -> option (list Z)) (fns : list Z) (l : list Z)
 (* finding class of one string call whose model and spec results differ *)
 Definition str_class (fn : Z) (l : list Z) : Z :=
   if negb (well_formed l) then 8
-  else if fn =? 4 then (if existsb is_hi l then 5 else 4)
+  else if fn =? 4 then 5
   else if fn =? 5 then (if existsb (fun c => 128 <=? c) l then 6 else 7)
   else 0.
 
